@@ -65,11 +65,14 @@ def alloc_part(conf, ev, wd, rng, quick):
              driver_timeout=2400, max_restarts=5000)
 
 
-def harvest(tier, seed):
+HARVEST_QUICK = ["C01", "C02", "C03", "C07", "C09", "C15", "C19"]
+
+
+def harvest(tier, seed, quick):
     """case sets of the other checks (collect mode: nothing is executed or judged there)"""
     out = []
     notes = {}
-    for p in HARVEST:
+    for p in (HARVEST_QUICK if quick else HARVEST):
         if not os.path.exists(os.path.join(core.ROOT, "vlib", "props", p + ".py")):
             continue
         core.COLLECT = []
@@ -87,10 +90,10 @@ def harvest(tier, seed):
 
 
 def asan_part(conf, ev, wd, rng, quick, tier, seed):
-    sets, notes = harvest("quick", seed)
+    sets, notes = harvest("quick", seed, quick)
     ev.cov["harvest_notes"] = notes
     done = []
-    budget = 60000 if quick else 600000
+    budget = 6000 if quick else 600000
     for g in sets:
         if g["custom_bdir"]:
             continue                                  # special builds (instrumented objects) are not re-run
